@@ -16,6 +16,7 @@ for pid in ids:
         "quick_cmd": "bin/check %s --tier quick" % pid,
         "thorough_cmd": "bin/check %s --tier thorough" % pid,
         "evidence_file": "evidence/%s.json" % pid,
+        "replay_cmd_template": "bin/check replay {path}",
         "engine": "tla-trace",
         "level_claimed": {
             "category": "model_checking",
